@@ -183,15 +183,36 @@ inline void BuildProgram(Source& s, Lane l, DynNode& obj, ProgStyle style, int a
 			if (archive == A_XML) op.key.s = "absent" + std::to_string(s.draw(l, 3));
 			else
 			{
-				const uint32_t km = s.draw(l, 4);
+				const uint32_t km = s.draw(l, 6);
 				if (km == 0) op.key.s = "absent";
 				else if (km == 1) op.key.s = "k";           // prefix of generated names
 				else if (km == 2 && n > 0 && !obj.keys[0].isInt) op.key.s = obj.keys[0].s + "_";
+				else if (km == 3 && n > 0)
+				{
+					// a proper prefix of an existing member's key
+					const Key& from = obj.keys[s.draw(l, n)];
+					op.key.s = from.isInt || from.s.size() < 2 ? std::string("zq") : from.s.substr(0, from.s.size() - 1 - s.draw(l, static_cast<uint32_t>(std::min<size_t>(from.s.size() - 1, 3))));
+				}
+				else if (km == 4 && (archive == A_MSGPACK || archive == A_JSON))
+				{
+					// an absent integer key: -1 (through every signed width), or next to / the negation of an existing integer key
+					op.key.isInt = true;
+					static const uint8_t kinds[] = { 0, 2, 3 };
+					op.key.ikind = s.pick(l, kinds);
+					op.key.i = -1;
+					const uint32_t im = s.draw(l, 3);
+					if (im != 0 && n > 0)
+					{
+						const Key& from = obj.keys[s.draw(l, n)];
+						if (from.isInt && from.ikind != 1) { op.key.i = im == 1 ? from.i + 1 : -from.i; op.key.ikind = 0; }
+					}
+				}
 				else op.key.s = "zz" + std::to_string(s.draw(l, 100));
 			}
+			if (!op.key.isInt && n > 0 && !obj.keys[0].isInt) op.key.cstr = obj.keys[0].cstr;
 			bool clash = false;
-			for (auto& k : obj.keys) if (!k.isInt && k.s == op.key.s) clash = true;
-			if (clash) op.key.s += "#absent";
+			for (auto& k : obj.keys) if (k == op.key) clash = true;
+			if (clash) { if (op.key.isInt) { op.key = Key(); op.key.s = "absentInt"; } else op.key.s += "#absent"; }
 			if (archive == A_XML) { for (auto& ch : op.key.s) if (ch == '#') ch = '_'; }
 		}
 		else
@@ -232,7 +253,7 @@ inline void Pretty(const DynNode& n, std::string& out, int depth = 0)
 		out += "{";
 		for (size_t i = 0; i < n.items.size(); ++i)
 		{
-			out += n.keys[i].isInt ? "#" + std::to_string(n.keys[i].i) : "'" + sim::hex(n.keys[i].s, 24) + "'";
+			out += n.keys[i].isInt ? "#" + n.keys[i].str() + "(k" + std::to_string(n.keys[i].ikind) + ")" : (n.keys[i].cstr ? "c'" : "'") + sim::hex(n.keys[i].s, 24) + "'";
 			out += ": ";
 			Pretty(n.items[i], out, depth + 1);
 			out += ", ";
